@@ -401,11 +401,55 @@ fn schema_nest(t: &mut Tape, clean: &[u8]) -> (Vec<u8>, String) {
     (out, format!("fees := {depth} nested {lname}"))
 }
 
+/// names that the IR references with more than one type (a client-built IR may do that); what
+/// `find_params` reports for such a name is whichever reference it meets last, which follows hash
+/// order - the comparison keeps the name and leaves its type out
+fn conflicting_param_names(tx: &tir::Tx) -> std::collections::BTreeSet<String> {
+    use ciborium::value::Value as V;
+    fn walk(v: &V, seen: &mut BTreeMap<String, Vec<u8>>, out: &mut std::collections::BTreeSet<String>) {
+        match v {
+            V::Map(m) => {
+                for (k, x) in m {
+                    if let (V::Text(k), V::Array(a)) = (k, x) {
+                        if k == "ExpectValue" && a.len() == 2 {
+                            if let V::Text(name) = &a[0] {
+                                let mut ty = vec![];
+                                let _ = ciborium::into_writer(&a[1], &mut ty);
+                                match seen.get(name) {
+                                    Some(prev) if *prev != ty => {
+                                        out.insert(name.clone());
+                                    }
+                                    _ => {
+                                        seen.insert(name.clone(), ty);
+                                    }
+                                }
+                            }
+                        }
+                    }
+                    walk(k, seen, out);
+                    walk(x, seen, out);
+                }
+            }
+            V::Array(a) => a.iter().for_each(|x| walk(x, seen, out)),
+            V::Tag(_, x) => walk(x, seen, out),
+            _ => {}
+        }
+    }
+    let mut seen = BTreeMap::new();
+    let mut out = std::collections::BTreeSet::new();
+    walk(&crate::reader::to_value(tx), &mut seen, &mut out);
+    out
+}
+
 fn summarize(tx: &tir::Tx) -> (BTreeMap<String, Type>, Vec<String>) {
-    (
-        tx3_tir::reduce::find_params(tx),
-        tx3_tir::reduce::find_queries(tx).keys().cloned().collect(),
-    )
+    let ambiguous = conflicting_param_names(tx);
+    let mut params = tx3_tir::reduce::find_params(tx);
+    for (k, ty) in params.iter_mut() {
+        if ambiguous.contains(k) {
+            *ty = Type::Undefined;
+        }
+    }
+    (params, tx3_tir::reduce::find_queries(tx).keys().cloned().collect())
 }
 
 pub fn world_c11(_tier: Tier, world_no: u64, mut tape: Tape) -> WorldReport {
@@ -1018,7 +1062,11 @@ fn inner_c16(world_no: u64, t: &mut Tape, rep: &mut WorldReport) {
     let Some(prod) = produce(t, world_no, rep) else { return };
     let lowered_only = matches!(prod.stage, "lowered");
     let (bytes, version) = tx3_tir::encoding::to_bytes(&prod.tx);
-    let declared = tx3_tir::reduce::find_params(&prod.tx);
+    let mut declared = tx3_tir::reduce::find_params(&prod.tx);
+    // a name the IR references with two types has no single declared type (which one is reported
+    // follows hash order): the client model leaves such names alone
+    let ambiguous = conflicting_param_names(&prod.tx);
+    declared.retain(|k, _| !ambiguous.contains(k));
     let mut intended: BTreeMap<String, Intended> = BTreeMap::new();
     let mut args_map = serde_json::Map::new();
     let mut env_map = serde_json::Map::new();
